@@ -167,7 +167,16 @@ func (u *useGen) page(depth int) []*tw.Stmt {
 	n := rapid.IntRange(1, 4).Draw(u.rt, "nUses")
 	for i := 0; i < n; i++ {
 		out = append(out, tw.Text(fmt.Sprintf("\n<u%d>", i)))
-		switch rapid.IntRange(0, 5).Draw(u.rt, "useWhere") {
+		switch rapid.IntRange(0, 7).Draw(u.rt, "useWhere") {
+		case 6:
+			// in the @else of a loop over an empty (or not empty) array
+			arr := rapid.SampledFrom([]*tw.Expr{tw.Arr(), tw.Arr(), tw.Arr(intLit(1))}).Draw(u.rt, "elseArr")
+			out = append(out, &tw.Stmt{Kind: tw.SEach, Name: "ev", E: arr, Body: []*tw.Stmt{tw.Text("(item)")}, HasElse: true, Else: u.use("")})
+			u.uses["in-loop-else"]++
+		case 7:
+			out = append(out, &tw.Stmt{Kind: tw.SIf, Branches: []tw.Branch{{Cond: tw.Bool(false), Body: []*tw.Stmt{tw.Text("no")}}, {Cond: tw.Var("b1"), Body: u.use("")}}, HasElse: true, Else: []*tw.Stmt{
+				{Kind: tw.SFor, Name: "fz", Init: intLit(0), Cond: tw.Bin("<", tw.Var("fz"), intLit(0)), Post: tw.Un(tw.EInc, tw.Var("fz")), Body: []*tw.Stmt{tw.Text("never")}, HasElse: true, Else: u.use("")}}})
+			u.uses["in-elseif-or-for-else"]++
 		case 0, 1, 2:
 			out = append(out, u.use("")...)
 		case 3:
@@ -186,7 +195,7 @@ func (u *useGen) page(depth int) []*tw.Stmt {
 
 func TestC07_Components(t *testing.T) {
 	c := harness.New(t, "C07", "components",
-		"pages with 1..4 uses of six component files (arguments used in text, expressions and conditions; a page variable that is not passed; two files that take nothing and show the variable of the loop around the use; default and named top-level slots; one under components/ addressed by '~name'): the same component several times with different arguments and different / missing slot bodies, uses inside @each and @for (arguments and slot bodies from the loop variable, >= 2 passes), inside @if/@else, inside @insert blocks of a layout, and inside the slot body passed to another use; slot bodies with text and {{ }} over page variables. Expected: reference instantiation (arguments evaluated at the place of use, surrounding scope visible, each placeholder replaced by the body passed by that use or nothing). Non-trivial: one component used >= 2 times or a use evaluated in a loop. Distinct by hash of files + data.")
+		"pages with 1..4 uses of six component files (arguments used in text, expressions and conditions; a page variable that is not passed; two files that take nothing and show the variable of the loop around the use; default and named top-level slots; one under components/ addressed by '~name'): the same component several times with different arguments and different / missing slot bodies, uses inside @each and @for (arguments and slot bodies from the loop variable, >= 2 passes), inside @if/@elseif/@else, inside the @else of @each and @for, inside @insert blocks of a layout, and inside the slot body passed to another use; slot bodies with text and {{ }} over page variables. Expected: reference instantiation (arguments evaluated at the place of use, surrounding scope visible, each placeholder replaced by the body passed by that use or nothing). Non-trivial: one component used >= 2 times or a use evaluated in a loop. Distinct by hash of files + data.")
 	defer c.Finish()
 	in := interp()
 	runRapid(t, c, 4000, 45000, func(rt *rapid.T) {
@@ -220,7 +229,7 @@ func TestC07_Components(t *testing.T) {
 		}
 		nt := maxUses >= 2 || u.uses["in-loop"] > 0
 		classes := []string{"outcome:" + out.St.String(), fmt.Sprintf("max-uses-of-one:%d", min(maxUses, 4))}
-		for _, k := range []string{"in-loop", "in-insert", "in-slot-body"} {
+		for _, k := range []string{"in-loop", "in-insert", "in-slot-body", "in-loop-else", "in-elseif-or-for-else"} {
 			if u.uses[k] > 0 {
 				classes = append(classes, "use:"+k)
 			}
